@@ -4,6 +4,9 @@ package policy
 // of trust, whichever verification mode is used.
 
 import (
+	"github.com/gittuf/gittuf/internal/signerverifier/dsse"
+	sslibdsse "github.com/gittuf/gittuf/internal/third_party/go-securesystemslib/dsse"
+	tufv02 "github.com/gittuf/gittuf/internal/tuf/v02"
 	policyopts "github.com/gittuf/gittuf/internal/policy/options/policy"
 	"github.com/gittuf/gittuf/internal/tuf"
 	"strconv"
@@ -197,4 +200,105 @@ func HarnessC02Chain() {
 			verif.Reach("rejected")
 		}
 	}
+}
+
+// HarnessC02DelegatedSigner: a delegated rule file must be signed as required
+// by the rule that delegates to it, with the principals as the DELEGATING file
+// defines them.  The primary rule file binds person "alice" to key2 and
+// delegates refs/heads/release to her; the delegated file may declare "alice"
+// again with another key (keyX) and is signed by a symbolic subset of
+// {key2, keyX}.  The state is written as a successor behind Apply's back.
+func HarnessC02DelegatedSigner() {
+	w := zzNewWorld()
+	p0 := zzBasePolicy([]int{0, 1}, nil)
+	zzMust(w.zzStageAndApply(p0, w.zzBuildState(p0, []int{0}, []int{0}), 0))
+	w.zzPush(zzMain, 0, 1, false)
+
+	person := func(k int) *tufv02.Person {
+		return &tufv02.Person{PersonID: "alice", PublicKeys: map[string]*tufv02.Key{zzKeyIDs[k]: zzKey(k)}}
+	}
+	root := tufv02.NewRootMetadata()
+	zzMust(root.AddRootPrincipal(zzKey(0)))
+	zzMust(root.AddPrimaryRuleFilePrincipal(zzKey(0)))
+	root.Version = 2
+	rootEnv, err := dsse.CreateEnvelope(root)
+	zzMust(err)
+	zzSignEnv(rootEnv, 0)
+
+	primary := tufv02.NewTargetsMetadata()
+	zzMust(primary.AddPrincipal(zzKey(0)))
+	zzMust(primary.AddPrincipal(zzKey(1)))
+	zzMust(primary.AddPrincipal(person(2)))
+	zzMust(primary.AddRule("protect-main", []string{zzKeyIDs[0], zzKeyIDs[1]}, []string{"git:" + zzMain}, 1))
+	zzMust(primary.AddRule("release-team", []string{"alice"}, []string{"git:" + zzRelease}, 1))
+	primary.Version = 2
+	pEnv, err := dsse.CreateEnvelope(primary)
+	zzMust(err)
+	zzSignEnv(pEnv, 0)
+
+	delegated := tufv02.NewTargetsMetadata()
+	redeclared := verif.Concrete(verif.Choice("delegated.declares.alice", 3)) // 0 not at all, 1 with key2, 2 with keyX
+	switch redeclared {
+	case 1:
+		zzMust(delegated.AddPrincipal(person(2)))
+	case 2:
+		zzMust(delegated.AddPrincipal(person(zzUnknownKey)))
+	}
+	zzMust(delegated.AddPrincipal(zzKey(3)))
+	zzMust(delegated.AddRule("release-inner", []string{zzKeyIDs[3]}, []string{"git:" + zzRelease}, 1))
+	dEnv, err := dsse.CreateEnvelope(delegated)
+	zzMust(err)
+	byAlice := verif.ConcreteBool(verif.Bool("delegated.signed.key2"))
+	byForger := verif.ConcreteBool(verif.Bool("delegated.signed.keyX"))
+	var signers []int
+	if byAlice {
+		signers = append(signers, 2)
+	}
+	if byForger {
+		signers = append(signers, zzUnknownKey)
+	}
+	zzSignEnv(dEnv, signers...)
+
+	state := &State{Metadata: &StateMetadata{RootEnvelope: rootEnv, TargetsEnvelope: pEnv, DelegationEnvelopes: map[string]*sslibdsse.Envelope{"release-team": dEnv}}}
+	w.zz2Tamper(&zzPolicySpec{}, state, 0)
+	w.zzPush(zzMain, 0, 2, false)
+
+	_, lerr := LoadCurrentState(w.ctx, w.S, PolicyRef)
+	_, verr := NewPolicyVerifier(w.S).VerifyRefFull(w.ctx, zzMain)
+	if lerr == nil {
+		verif.Reach("accepted")
+	} else {
+		verif.Reach("rejected")
+	}
+	verif.Assert((lerr == nil) == byAlice, "delegated-file-loads-iff-signed-with-the-key-the-delegating-file-binds-to-the-principal")
+	verif.Assert(verif.Implies(!byAlice, verr != nil), "verification-depending-on-the-state-fails-when-the-delegated-file-is-not-properly-signed")
+}
+
+// HarnessC02RootOnly: the bootstrap phase, in which policy states consist of a
+// root of trust only (no primary rule file yet).  A successor root with an
+// unconstrained version number signed by a symbolic subset of keys, written
+// behind Apply's back: it takes effect only if signed by the old root's
+// threshold, by its own, and not rolled back.
+func HarnessC02RootOnly() {
+	w := zzNewWorld()
+	p0 := &zzPolicySpec{rootKeys: []int{0, 1}, rootThreshold: 1, rootVersion: 5}
+	zzMust(w.zzStageAndApply(p0, w.zzBuildState(p0, []int{0}, nil), 0))
+
+	p1 := &zzPolicySpec{rootKeys: zz2Subset("p1.rootkeys", []int{0, 1, 2}), rootThreshold: 1, rootVersion: verif.Uint64("p1.rootversion")}
+	if len(p1.rootKeys) == 0 {
+		return
+	}
+	signers := zz2Subset("p1.rootsigners", []int{0, 1, 2})
+	w.zz2Tamper(p1, w.zzBuildState(p1, signers, nil), 0)
+
+	signedByOld := zz2Count(signers, p0.rootKeys) >= 1
+	selfSigned := zz2Count(signers, p1.rootKeys) >= 1
+	valid := verif.And(verif.And(signedByOld, selfSigned), p1.rootVersion >= p0.rootVersion)
+	_, err := LoadCurrentState(w.ctx, w.S, PolicyRef)
+	if err == nil {
+		verif.Reach("accepted")
+	} else {
+		verif.Reach("rejected")
+	}
+	verif.Assert((err == nil) == valid, "root-only-successor-loads-iff-signed-by-old-and-new-roots-and-not-rolled-back")
 }
